@@ -96,6 +96,13 @@ def r09_1_frozen(ctx: Ctx) -> None:
                 # a frozen dataclass must not switch hashing off
                 if "__hash__" in c.class_assigns and isinstance(c.class_assigns["__hash__"], ast.Constant):
                     run.fail("R09.1", inst, f"{c.name} sets __hash__ = None", file=c.module.path, line=c.node.lineno, func=c.name)
+                elif any(("__hash__" in k.methods) != ("__eq__" in k.methods) for k in m.mro(c) if k.is_dataclass or k is c):
+                    # the generated pair compares and hashes the same fields; a hand-written half of the pair (dataclass
+                    # keeps an explicit __hash__) lets equal values hash differently
+                    k = next(k for k in m.mro(c) if ("__hash__" in k.methods) != ("__eq__" in k.methods))
+                    which = "__hash__" if "__hash__" in k.methods else "__eq__"
+                    fi = k.methods[which]
+                    run.fail("R09.1", inst, f"{k.name} defines its own {which} next to the generated field-wise {'__eq__' if which == '__hash__' else '__hash__'}: equal values may hash differently, so sets and dicts treat equal relations as distinct", fi=fi)
                 else:
                     run.ok("R09.1", inst, {"class": c.key, "why": why, "frozen": True})
             else:
